@@ -818,6 +818,17 @@ def parse_mir(text):
                 mod.alloc_static[m.group(2)] = name
             i += 1
             continue
+        mc = re.match(r'^const ([A-Za-z_][A-Za-z0-9_:]*): ([^=]+) = const (.*);$', line.rstrip())
+        if mc:
+            fn = Function(mc.group(1), [], mc.group(2).strip())
+            fn.kind = 'const'
+            fn.locals[0] = mc.group(2).strip()
+            fn.blocks[0] = ([('assign', Place(0), ('use', parse_const(mc.group(3))))], ('return',), False, [line.strip()])
+            if fn.name not in mod.functions:
+                mod.functions[fn.name] = fn
+                mod.order.append(fn.name)
+            i += 1
+            continue
         m = _re_fn.match(line)
         if m and line.rstrip().endswith('{'):
             kind = m.group(1).split()[0]
